@@ -529,8 +529,9 @@ impl FixtureDatabase {
                     }
                 }
 
-                // Then add fixtures imported into the conftest
-                if self.file_cache.contains_key(&conftest_path) {
+                // Then add fixtures imported into the conftest (a conftest.py that is on disk
+                // but not in the file cache counts too, as in find_closest_definition)
+                if conftest_path.exists() || self.file_cache.contains_key(&conftest_path) {
                     let mut visited = HashSet::new();
                     let imported_fixtures =
                         self.get_imported_fixtures(&conftest_path, &mut visited);
